@@ -43,6 +43,18 @@ Theorem C09_every_statement_emitted : forall pr fuel b st ls st' t,
   (In (Some t) (tags_stmts b) <-> exists i id, nth_error ls i = Some (Code id (Some t))).
 Proof. exact stmts_emitted. Qed.
 
+(* THE FILE: the name cl writes into a directive (filepath.Rel(RelativeBase, file), slash separated), read against
+   RelativeBase, is the XGo source file — for all clean absolute paths *)
+Theorem C09_directive_file_resolves : forall base targ,
+  forallb plain_comp base = true -> forallb plain_comp targ = true -> targ <> [] ->
+  resolve_against base (rel_path base targ) = targ.
+Proof. exact rel_path_resolves. Qed.
+
+Example C09_rel_examples :
+  let a := [97]%N in let b := [98]%N in let c := [99]%N in let x := [120]%N in
+  rel_path [a; b] [a; b; x] = [x] /\ rel_path [a; b; c] [a; x] = [dotdot; dotdot; x] /\ rel_path [a] [a] = [dot1].
+Proof. vm_compute. auto. Qed.
+
 (* termination: with distinct function names the model needs no more than prog_fuel (the summed sizes of the
    declarations), however the lazy loading nests; and it never panics *)
 Theorem C09_compile_total : forall pr,
@@ -132,4 +144,5 @@ Print Assumptions C09_stmts_anchored.
 Print Assumptions C09_tags_exact.
 Print Assumptions C09_every_statement_emitted.
 Print Assumptions C09_compile_total.
+Print Assumptions C09_directive_file_resolves.
 Print Assumptions C09_directive_maps_first_line_refuted_without_guard.
